@@ -331,6 +331,11 @@ type histOut struct {
 // runHist runs a history on dir; segments (cut at X) run in their own processes when there is more
 // than one, or always when forceProc is set.
 func runHist(dir string, cap int, opsField string, forceProc bool) (h histOut, errOut []string) {
+	return runHistFrom(dir, cap, opsField, forceProc, nil)
+}
+
+// runHistFrom: as runHist, the handle table starting as tab0 (a store that already holds mail).
+func runHistFrom(dir string, cap int, opsField string, forceProc bool, tab0 [][]string) (h histOut, errOut []string) {
 	var segs [][]string
 	cur := []string{}
 	if opsField != "-" {
@@ -344,7 +349,7 @@ func runHist(dir string, cap int, opsField string, forceProc bool) (h histOut, e
 		}
 	}
 	segs = append(segs, cur)
-	var tab [][]string
+	tab := tab0
 	prevEnd := ""
 	h.live = "1"
 	for i, sg := range segs {
@@ -429,8 +434,12 @@ func exec(kind string, in []string) []string {
 			"live=" + h.live, fmt.Sprintf("retries=%d", h.retries), "reissued=" + jn(h.reissued, ",")}
 	case "srv":
 		return srvCase(cap, in[2], in[3])
+	case "upg":
+		return upgCase(cap, in[2], in[3])
 	case "big":
 		return bigCase(cap, vh.AtoI(in[2]), vh.AtoI(in[3]), vh.AtoI(in[4]))
+	case "size":
+		return sizeCase(cap, vh.AtoI(in[2]), in[3])
 	case "conc":
 		return concCase(cap, vh.AtoI(in[2]), vh.AtoI(in[3]), vh.AtoI(in[4]))
 	case "reissue":
